@@ -10,6 +10,13 @@ from harness.gamma import NA
 U = ["k", "a", "b", "r", "rr", "x", "y", "items", "a b"]
 SM_PALETTES = [gamma.FLOAT_INF, gamma.FLOAT_BIG, gamma.STR_SHORT, gamma.STR_FIXED, gamma.STR_ASTRAL, gamma.DATE,
                gamma.DATETIME, gamma.OBJ_INT, gamma.INT_SMALL, gamma.TIMEDELTA]
+FOCUS = {
+    "C02": ["filter", "filter_out", "slice", "slice_off", "head", "tail", "drop_na", "unique"],
+    "C03": ["sort"],
+    "C04": ["gmodify", "group_by"],
+    "C05": ["left", "inner", "semi", "anti", "full"],
+    "C09": ["select", "unselect", "rename", "modify", "rbind", "cbind", "update", "colnames"],
+}
 TRANSFORMING = {"filter", "filter_out", "slice", "slice_off", "head", "tail", "drop_na", "unique", "sort", "select",
                 "unselect", "rename", "modify", "rbind", "cbind", "update", "left", "inner", "semi", "anti", "full", "deepcopy"}
 
@@ -102,7 +109,14 @@ class Session:
         if op in ("filter", "filter_out"):
             new = getattr(d, op)(np.array(a["mask"], dtype=bool))
         elif op in ("slice", "slice_off"):
-            new = getattr(d, op)(list(a["idx"]))
+            idx = list(a["idx"])
+            if e.get("form") == "range" and idx and idx == list(range(idx[0], idx[-1] + 1)):
+                new = getattr(d, op)(range(idx[0], idx[-1] + 1))
+            else:
+                new = getattr(d, op)(idx)
+        elif op == "gmodify":
+            v1, v2 = P.value(e["vals"][0]), P.vector(list(e["vals"])[:e["flen"]], typed=True)
+            new = d.modify(**{e["name"]: (lambda x: v1) if e["flen"] == 1 else (lambda x: v2)})
         elif op in ("head", "tail"):
             new = getattr(d, op)(a["n"])
         elif op in ("drop_na", "unique"):
@@ -166,23 +180,47 @@ def rand_cells(rng, n, pal, p_na=0.25, distinct=False):
     return [NA if (pal.has_na and rng.random() < p_na) else 2 * rng.randrange(k) for _ in range(n)]
 
 
-def random_event(rng, s, pal):
+ALL_OPS = ["gmodify", "gmodify"]
+
+
+def random_event(rng, s, pal, focus=None):
     """A random call; the model's EventOK decides whether it is judged."""
     nf = len(s.frames)
     x = rng.randint(1, nf)
     d = s.frames[x - 1]
     cols = list(dict.keys(d))
     n = safe_nrow(d)
-    op = rng.choice(["filter", "filter_out", "slice", "slice_off", "head", "tail", "drop_na", "unique", "sort", "select",
+    op = rng.choice(focus) if (focus and rng.random() < 0.55) else rng.choice(ALL_OPS + ["filter", "filter_out", "slice", "slice_off", "head", "tail", "drop_na", "unique", "sort", "select",
                      "unselect", "rename", "modify", "rbind", "cbind", "update", "left", "inner", "semi", "anti", "full",
                      "deepcopy", "copy", "copy", "setitem", "setitem", "setitem", "setcol", "setcol", "delitem", "delattr", "pop",
-                     "colnames", "group_by", "poke", "poke", "poke"])
+                     "colnames", "group_by", "group_by", "poke", "poke", "poke"])
     e = {"op": op, "x": x}
+    if op == "gmodify":
+        grouped = [h + 1 for h, fr in enumerate(s.frames) if fr._group_colnames and safe_nrow(fr) >= 1]
+        if not grouped:
+            e["op"] = op = "group_by"
+        else:
+            e["x"] = rng.choice(grouped)
+            e.update({"name": rng.choice(["x", "y", "a"]), "flen": rng.choice([1, 2, 2, 2, 3]), "vals": [2 * rng.randrange(2) for _ in range(3)]})
+            # the interesting wrong lengths are those that still add up to nrow (groups of unequal size, n = G * flen)
+            try:
+                g = s.frames[e["x"] - 1]
+                sizes = [len(ix) for ix in g.split(*g._group_colnames)]
+                tot, G = sum(sizes), len(sizes)
+                if G and tot % G == 0 and tot // G in (2, 3) and len(set(sizes)) > 1 and rng.random() < 0.8:
+                    e["flen"] = tot // G
+            except Exception:
+                pass
+            return e
     pick = lambda k=1: rng.sample(cols, min(k, len(cols)))
     if op in ("filter", "filter_out"):
         e["a"] = {"op": op, "mask": [rng.random() < 0.5 for _ in range(n)]}
     elif op in ("slice", "slice_off"):
         e["a"] = {"op": op, "idx": [rng.randrange(n) for _ in range(rng.randint(0, 3))] if n else []}
+        if n and rng.random() < 0.4:          # a contiguous run, given as a range object
+            lo = rng.randrange(n)
+            e["a"]["idx"] = list(range(lo, rng.randint(lo, n - 1) + 1))
+            e["form"] = "range"
     elif op in ("head", "tail"):
         e["a"] = {"op": op, "n": rng.randint(0, n + 1)}
     elif op in ("drop_na", "unique"):
@@ -230,6 +268,13 @@ def random_event(rng, s, pal):
 
 
 def plausible(s, e):
+    try:
+        return _plausible(s, e)
+    except (KeyError, IndexError, TypeError):
+        return False
+
+
+def _plausible(s, e):
     """Cheap pre-filter so that few histories are cut at a call outside the supported inputs (EventOK in FrameSM.tla
     remains the judge of what is supported; this only steers the generator)."""
     fr = s.frames
@@ -264,27 +309,60 @@ def plausible(s, e):
         return bool(ocols) and (not cols or safe_nrow(o) == n)
     if op in ("delitem", "delattr", "pop"):
         return e["name"] in cols
+    if op == "gmodify":
+        return bool(d._group_colnames) and n >= 1 and all(c in cols for c in d._group_colnames)
     if op == "poke":
         return e.get("name") in cols and n > 0
     return True
 
 
-def random_trace(rng, nsteps):
+def random_trace(rng, nsteps, focus=None):
     pal = rng.choice(SM_PALETTES)
-    n1, n2 = rng.choice([0, 1, 2, 3, 3]), rng.choice([0, 1, 2, 2, 3])
+    n1, n2 = rng.choice([0, 1, 2, 3, 3, 4]), rng.choice([0, 1, 2, 2, 3])
+    if len(pal.values) < 4:
+        n1 = min(n1, len(pal.values))
     init = [{"cols": ["k", "a", "r"], "cell": {"k": rand_cells(rng, n1, pal), "a": rand_cells(rng, n1, pal, 0.5), "r": rand_cells(rng, n1, pal, distinct=True)}},
             {"cols": ["k", "b", "rr"], "cell": {"k": rand_cells(rng, n2, pal), "b": rand_cells(rng, n2, pal, 0.5), "rr": rand_cells(rng, n2, pal, distinct=True)}}]
     if rng.random() < 0.3:
         init.append({"cols": [], "cell": {}})
+    scenario = None
+    if focus and "gmodify" in focus and len(pal.values) >= 4 and rng.random() < 0.4:
+        # groups of unequal size whose sizes still add up to a multiple: 4 rows in groups of 3 + 1
+        kcells = rng.choice([[0, 0, 0, 2], [2, 0, 0, 0], [0, 2, 0, 0], [-1, -1, -1, 0] if pal.has_na else [2, 2, 0, 2]])
+        init[0] = {"cols": ["k", "a", "r"], "cell": {"k": kcells, "a": rand_cells(rng, 4, pal, 0.5), "r": rand_cells(rng, 4, pal, distinct=True)}}
+        scenario = [{"op": "group_by", "x": 1, "cols": ["k"]},
+                    {"op": "gmodify", "x": 1, "name": rng.choice(["x", "a"]), "flen": 2, "vals": [2 * rng.randrange(2) for _ in range(3)]}]
     s = Session(pal, init)
     tr = {"palette": pal.name, "init": init, "steps": []}
+    for e in (scenario or []):
+        e["obs"] = s.step(e)
+        tr["steps"].append(e)
     last_grouped = None
+    repeat = None          # (event, countdown): call -> in-place write into an operand -> the same call again
     for _ in range(nsteps):
-        e = random_event(rng, s, pal)
+        e = random_event(rng, s, pal, focus)
         for _try in range(8):
             if plausible(s, e):
                 break
-            e = random_event(rng, s, pal)
+            e = random_event(rng, s, pal, focus)
+        if repeat is not None:
+            ev, stage = repeat
+            if stage == 0:
+                # write into a column of an operand of the earlier call (the right-hand key of a join, or the receiver)
+                tgt = ev.get("o", ev["x"]) if rng.random() < 0.6 else ev["x"]
+                td = s.frames[tgt - 1]
+                tcols = list(dict.keys(td))
+                if tcols and safe_nrow(td) and pal is not gamma.STR_FIXED:
+                    name = "k" if ("k" in tcols and rng.random() < 0.7) else rng.choice(tcols)
+                    e = {"op": "poke", "x": tgt, "name": name, "i": rng.randint(1, safe_nrow(td)), "v": 2 * rng.randrange(min(3, len(pal.values)))}
+                    repeat = (ev, 1)
+                else:
+                    repeat = None
+            else:
+                e = {k: v for k, v in ev.items() if k != "obs"}
+                repeat = None
+        elif e["op"] in TRANSFORMING and e["op"] not in ("deepcopy", "gmodify") and rng.random() < 0.3:
+            repeat = (e, 0)
         # a grouped receiver is the interesting history for group-sensitive internals: follow a group_by
         # half of the time with a transforming call (joins first) on the frame that was just grouped
         if last_grouped is not None and rng.random() < 0.5:
@@ -314,6 +392,14 @@ SKIPS = {}
 PREFIX = {"C01": ("C01:",), "C06": ("C06:",)}
 
 
+def owns(prop, clause, op):
+    """Which check reports a rejected step of a history: C01 / C06 their own clause families (C01 also every unexpected
+    exception); a wrong result of a transforming call inside a history belongs to the property that owns that call."""
+    if prop in PREFIX:
+        return clause.startswith(PREFIX[prop]) or (prop == "C01" and clause.startswith(("SM:raised", "SM:no-new-frame")))
+    return clause.startswith(("SM:wrong-result", "SM:raised", "SM:full_join", "C01:length-mismatch")) and op in FOCUS.get(prop, [])
+
+
 def sig_of(clause, tr, step):
     e = tr["steps"][step - 1]
     s = {"op": e["op"]}
@@ -324,6 +410,27 @@ def sig_of(clause, tr, step):
     return s
 
 
+def histories_for(ctx, prop, ntr):
+    """Focused histories for a single-call property: its own calls inside call sequences (grouped receivers, in-place
+    writes between two identical calls, shallow copies ...), validated by FrameSMTrace; reports what it owns."""
+    rng = ctx.rng
+    traces = [random_trace(rng, rng.randint(3, 7), FOCUS[prop]) for _ in range(ntr)]
+    bad = validate(ctx, traces)
+    n = 0
+    for ti, step, clause in bad:
+        e = traces[ti]["steps"][step - 1]
+        if owns(prop, clause, e["op"]):
+            parts = clause.split(":")
+            ctx.fail("history:" + ":".join(parts[:2]), dict(sig_of(clause, traces[ti], step), detail=clause),
+                     {"history": traces[ti], "failing_step": step, "clause": clause})
+            n += 1
+    ctx.extra["history_traces"] = len(traces)
+    ctx.extra["history_steps"] = sum(len(t["steps"]) for t in traces)
+    ctx.rule += (" | plus %d seeded call histories (FrameSM) focused on this property's calls, incl. call -> in-place write into an "
+                 "operand -> same call again, validated step by step by FrameSMTrace" % len(traces))
+    return n
+
+
 def run_for(ctx, prop):
     from props import c17
     quick = ctx.tier == "quick"
@@ -332,13 +439,13 @@ def run_for(ctx, prop):
     ctx.model_check("FrameSMMC", cfg_text=cfg, timeout=3400, heap="12g")
     rng = ctx.rng
     ntr = 1200 if quick else 15000
-    traces = [random_trace(rng, rng.randint(2, 7)) for _ in range(ntr)]
+    traces = [random_trace(rng, rng.randint(2, 7), FOCUS["C04"] if rng.random() < 0.15 else None) for _ in range(ntr)]
     bad = validate(ctx, traces)
     mine = PREFIX[prop]
     others = {}
     for ti, step, clause in bad:
         base = clause
-        if clause.startswith(mine) or (prop == "C01" and clause.startswith("SM:raised")):
+        if owns(prop, clause, traces[ti]["steps"][step - 1]["op"]):
             parts = clause.split(":")
             ctx.fail(":".join(parts[:2]), dict(sig_of(clause, traces[ti], step), detail=clause),
                      {"trace": traces[ti], "failing_step": step, "clause": clause})
@@ -419,7 +526,7 @@ def replay_for(ctx, rp, prop):
             tr["steps"].append(e)
         bad = validate(ctx, [tr])
         for _, step, clause in bad:
-            if clause.startswith(PREFIX[prop]) or (prop == "C01" and clause.startswith("SM:raised")):
+            if owns(prop, clause, tr["steps"][step - 1]["op"]):
                 ctx.fail(":".join(clause.split(":")[:2]), dict(sig_of(clause, tr, step), detail=clause), {"trace": tr, "failing_step": step})
         print("replayed history of", len(tr["steps"]), "calls ->", [(s_, c) for _, s_, c in bad] or "accepted")
 
